@@ -172,34 +172,64 @@ func (s *BlockchainRpcTxWatcher) StartBlockWatcher() error {
 
 // HandleCsvTx looks for transactions that have enough confirmations to be spend using the csv path
 func (s *BlockchainRpcTxWatcher) HandleCsvTx(blockheight uint64) error {
-	var toRemove []string
+	type csvEntry struct {
+		swapId string
+		info   SwapTxInfo
+	}
 	s.Lock()
+	callback := s.csvPassedCallback
+	entries := make([]csvEntry, 0, len(s.csvtxWatchList))
 	for k, v := range s.csvtxWatchList {
-		res, err := s.blockchain.GetTxOut(v.TxId, v.TxVout)
+		entries = append(entries, csvEntry{swapId: k, info: *v})
+	}
+	s.Unlock()
+
+	// The callback re-enters the swap's state machine, whose actions call back
+	// into this watcher while holding the swap's lock. It must therefore never
+	// be called while the watcher's lock is held.
+	for _, e := range entries {
+		above, err := s.checkTxAboveCsvHight(e.info.TxId, e.info.TxVout, e.info.Csv)
 		if err != nil {
 			log.Infof("watchlist fetchtx err: %v", err)
 			continue
 		}
-		if res == nil {
+		if !above || callback == nil {
 			continue
 		}
-		if v.Csv > res.Confirmations {
+		// Take the entry off the list before reporting, so that it is
+		// reported at most once even if two checks run at the same time.
+		if !s.claimCsvEntry(e.swapId) {
 			continue
 		}
-		if s.csvPassedCallback == nil {
-			continue
-		}
-		err = s.csvPassedCallback(k)
+		err = callback(e.swapId)
 		if err != nil {
 			log.Infof("csv passed callback err: %v. swap id: %s, tx id: %s, starting block height: %d",
-				err, k, v.TxId, v.StartingBlockHeight)
-			continue
+				err, e.swapId, e.info.TxId, e.info.StartingBlockHeight)
+			s.restoreCsvEntry(e.swapId, e.info)
 		}
-		toRemove = append(toRemove, k)
 	}
-	s.Unlock()
-	s.TxClaimed(toRemove)
 	return nil
+}
+
+// claimCsvEntry removes the swap from the csv watch list. It returns false if
+// the swap is not (or no longer) on the list.
+func (s *BlockchainRpcTxWatcher) claimCsvEntry(swapId string) bool {
+	s.Lock()
+	defer s.Unlock()
+	if _, ok := s.csvtxWatchList[swapId]; !ok {
+		return false
+	}
+	delete(s.csvtxWatchList, swapId)
+	return true
+}
+
+// restoreCsvEntry puts a swap back on the csv watch list after a failed report.
+func (s *BlockchainRpcTxWatcher) restoreCsvEntry(swapId string, info SwapTxInfo) {
+	s.Lock()
+	defer s.Unlock()
+	if _, ok := s.csvtxWatchList[swapId]; !ok {
+		s.csvtxWatchList[swapId] = &info
+	}
 }
 
 func (l *BlockchainRpcTxWatcher) AddWaitForConfirmationTx(swapId, txId string, vout, startingBlockheight, paymentWindow uint32, _ []byte) {
@@ -232,29 +262,22 @@ func (l *BlockchainRpcTxWatcher) checkTxAboveCsvHight(txId string, vout, csv uin
 }
 
 func (l *BlockchainRpcTxWatcher) AddWaitForCsvTx(swapId, txId string, vout uint32, startingBlockheight, csv uint32, _ []byte) {
-	// Before we add the tx to the watcher we check if the tx is already
-	// above the csv limit.
-	above, err := l.checkTxAboveCsvHight(txId, vout, csv)
-	if err != nil {
-		log.Infof("[TxWatcher] checkTxAboveCsvHeight returned: %s", err.Error())
-	}
-	if above {
-		err = l.csvPassedCallback(swapId)
-		if err == nil {
-			log.Infof("Swap %s already past CSV limit", swapId)
-			return
-		}
-		log.Infof("csv passed callback error: %v", err)
-	}
-
 	l.Lock()
-	defer l.Unlock()
 	l.csvtxWatchList[swapId] = &SwapTxInfo{
 		TxId:                txId,
 		TxVout:              vout,
 		Csv:                 csv,
 		StartingBlockHeight: startingBlockheight,
 	}
+	l.Unlock()
+
+	// The tx might already be above the csv limit. The csv callback re-enters
+	// the swap's state machine, and it is an action of that state machine that
+	// is calling us (holding the swap's lock): the check must not run on the
+	// caller's goroutine. Do what a new block would do.
+	go func() {
+		_ = l.HandleCsvTx(0)
+	}()
 }
 
 func (l *BlockchainRpcTxWatcher) TxClaimed(swaps []string) {
